@@ -74,6 +74,21 @@ CHECKS["C19"] = dict(
          "obligation) and the hand-written effect semantics are trusted. A crash inside file.write is outside the property and the model.",
     technique="Lean 4 proof over a model regenerated from the source on every run (translator) + fault-injection correspondence",
     design="6 C19")
+CHECKS["C05"] = dict(
+    text="Lean 4 theorems about a code-order model of Field.validate and every built-in _validate/to_basic/to_python: validation "
+         "is idempotent for every field class, every parameterisation inside the decidable guard IdemOk (all but custom validators "
+         "and the recorded findings F22/F25), every input value of every type and every nesting depth of typed lists/dicts (mutual "
+         "structural recursion; string transforms, int text, IPv4 address/network parse-print round trips, base64/hex inverses all "
+         "proved); the guard is shown necessary by a kernel-evaluated counterexample; byte, digest and identity codecs invert. "
+         "Correspondence: random declarations x value pools through validate / validate-again / to_basic / to_python on the real "
+         "fields and the model (about 7000 comparisons per quick run), with direct idempotence and codec oracles on the implementation.",
+    note="Model hand-written; tie = differential correspondence. float(text), os.path.*, urlparse are environment parameters fed from "
+         "CPython per case; str.lower/upper/strip, int(text), the re fragment and ipaddress are hand models (model alphabet; outside it "
+         "cases are counted as unmodelled). Exactness against an independent declarative Accepts predicate is not yet stated as a "
+         "theorem: it rests on the correspondence. Codec inversion is proved per leaf kind; its lifting over nesting is explored, not proved. "
+         "Known findings F22 (IPv4Network canonical form vs string options), F23 (foreign-algorithm digest), F25 (resolved path vs string options).",
+    technique="Lean 4 proof (mutual structural recursion over field declarations) + model/implementation correspondence",
+    design="6 C05")
 PENDING = ["C01", "C02", "C03", "C04", "C05", "C06", "C07", "C08", "C09", "C10", "C11", "C12", "C13", "C14", "C15", "C16",
            "C17", "C19", "C20"]
 
